@@ -144,7 +144,7 @@ def p_bytes_misc(q):
         yield from calls(f, byte_vals, byte_vals)
         yield from calls(f, [97], [98], byte_vals)
     for f in ("string/has-prefix?", "string/has-suffix?", "string/check-set"):
-        yield from calls(f, list(strs(A4, 3 if not q else 2)), S)
+        yield from calls(f, list(strs(A4, 3)), S)
     parts_alpha = [b"", b"a", b"b\0", Buf(b"c"), Kw("k"), Sym("y")]
     seps = [OMIT, b"", b",", b"\0\xff", Buf(b"-"), Kw("s")]
     for k in range(0, 4 if q else 5):
@@ -166,7 +166,7 @@ def bufs(n, alpha=(97, 0, 255)):
 
 
 def p_buffer_push(q):
-    n = 6 if q else 9
+    n = 6 if q else 12
     pieces = [b"", b"x", b"\0\xff", Buf(b"pq"), Kw("kw"), Sym("sy"), 0, 65, -1, 256, 1000]
     for b in bufs(n):
         for f in ("buffer/push",):
@@ -184,7 +184,7 @@ def p_buffer_push(q):
         yield from calls("buffer/push-byte", [Buf(b)], [OMIT, 0, 65, -1, 255, 256, -256, 2 ** 31 - 1], [OMIT, 66])
         yield from calls("buffer/push-word", [Buf(b)], [OMIT, 0, 1, 0x01020304, 2 ** 31, 2 ** 32 - 1, 2.0 ** 32, 1.5, -1], [OMIT, 7])
     # growth boundaries: many sizes of buffer x many sizes of pushed data
-    m = 18 if q else 40
+    m = 18 if q else 66
     for i in range(m):
         for j in range(m):
             yield ("buffer/push", [Buf(bytes(range(i))), bytes(range(100, 100 + j))])
@@ -195,7 +195,7 @@ def p_buffer_push(q):
 
 
 def p_buffer_push_at(q):
-    n = 4 if q else 6
+    n = 4 if q else 8
     pieces = [b"", b"x", b"xyz", b"\0\xff", Buf(b"pq"), Kw("kw"), 65, 256]
     for b in bufs(n):
         ix = list(range(-2, len(b) + 3))
@@ -205,7 +205,7 @@ def p_buffer_push_at(q):
         yield from calls("buffer/push-at", [Buf(b)], ix, [b"Z"], [Alias(0)])
         # ill-typed data after the index: must raise without losing the bytes already in the buffer
         yield from calls("buffer/push-at", [Buf(b)], ix, [OMIT, b"x"], [None, 1.5, (1,), Arr()])
-    m = 12 if q else 24
+    m = 12 if q else 40
     for i in range(m):
         for at in sorted(set([0, 1, i // 2, max(0, i - 1), i])):
             for j in (0, 1, 2, 3, 4, 5, 7, 8, 9, 15, 16, 17, 31, 33):
@@ -213,7 +213,7 @@ def p_buffer_push_at(q):
 
 
 def p_buffer_fixed(q):
-    n = 3 if q else 5
+    n = 3 if q else 9
     orders = [Kw("le"), Kw("be"), Kw("native"), Kw("xx"), b"le", None]
     u16 = [0, 1, 255, 256, 0x1234, 65535, 65536, -1, 1.5, float("nan"), None, b"1"]
     u32 = [0, 1, 0x01020304, 2 ** 31, 2 ** 32 - 1, 2 ** 32, -1, 1.5, float("inf"), None]
@@ -234,7 +234,7 @@ def p_buffer_fixed(q):
 
 
 def p_buffer_misc(q):
-    n = 5 if q else 8
+    n = 5 if q else 12
     for b in bufs(n):
         yield from calls("buffer/popn", [Buf(b)], list(range(-2, len(b) + 3)) + [1.5, None])
         yield from calls("buffer/fill", [Buf(b)], [OMIT, 0, 97, 255, 256, -1, 1.5, None])
@@ -250,7 +250,7 @@ def p_buffer_misc(q):
 
 
 def p_buffer_blit(q):
-    n = 3 if q else 4
+    n = 3 if q else 5
     for d in bufs(n):
         for s in bufs(n, alpha=(120, 0, 255)):
             di = [OMIT, None] + list(range(-(len(d) + 2), len(d) + 3))
@@ -261,7 +261,7 @@ def p_buffer_blit(q):
         # self-aliasing: a buffer blitted into itself, every index triple
         di = [OMIT, None] + list(range(-(len(d) + 2), len(d) + 3))
         yield from calls("buffer/blit", [Buf(d)], [Alias(0)], di, di, di)
-    m = 10 if q else 20
+    m = 10 if q else 40
     for i in range(m):
         for j in range(m):
             for at in sorted(set([0, i // 2, i])):
@@ -286,7 +286,7 @@ def iota(n):
 
 
 def p_array_slice(q):
-    n = 4 if q else 6
+    n = 4 if q else 9
     for k in range(n + 1):
         ix = [OMIT, None] + list(range(-(k + 2), k + 3))
         for f in ("array/slice", "tuple/slice"):
@@ -300,7 +300,7 @@ def p_array_slice(q):
 
 
 def p_array_insert_remove(q):
-    n = 4 if q else 6
+    n = 4 if q else 9
     xs = [Kw("x"), Kw("y"), Kw("z")]
     for k in range(n + 1):
         ix = list(range(-(k + 3), k + 3)) + [1.5, None]
@@ -314,7 +314,7 @@ def p_array_insert_remove(q):
     yield ("array/remove", [Arr(iota(2))])
     yield ("array/remove", [Arr(iota(2)), 0, 1, 1])
     # growth boundaries
-    m = 12 if q else 24
+    m = 12 if q else 40
     for i in range(m):
         for at in sorted(set([0, i // 2, i])):
             for j in (1, 2, 3, 4, 5, 8, 9):
@@ -322,7 +322,7 @@ def p_array_insert_remove(q):
 
 
 def p_array_concat(q):
-    n = 3 if q else 4
+    n = 3 if q else 6
     partsv = [1, None, b"s", (), (1,), (1, 2), Arr(), Arr([3]), Arr([3, 4]), BTuple((5,)), Alias(0), Tab(), Buf(b"b")]
     for k in range(n + 1):
         for f in ("array/concat", "array/join"):
@@ -337,7 +337,7 @@ def p_array_concat(q):
     for f in ("array/concat", "array/join", "array/push", "array/fill", "array/pop", "array/peek", "array/trim", "array/clear"):
         yield from calls(f, [iota(2), b"ab", Buf(b"ab"), None, 5])
         yield (f, [])
-    m = 14 if q else 34
+    m = 14 if q else 48
     for i in range(m):
         yield ("array/concat", [Arr(iota(i)), Alias(0)])
         yield ("array/concat", [Arr(iota(i)), Alias(0), Alias(0)])
@@ -390,7 +390,7 @@ def allseqs(maxlen, kinds="at", alpha=E3):
 
 
 def p_seq_map(q):
-    n = 4 if q else 5
+    n = 4 if q else 6
     for c in allseqs(n, "atsb"):
         for f in ("inc", "neg", "dup", "identity"):
             yield ("map", [fn(f), c])
@@ -411,6 +411,12 @@ def p_seq_map(q):
                 yield (g, [fn(f), c])
         yield ("any?", [c])
         yield ("every?", [c])
+    for c in allseqs(3 if q else 4, "at", [None, False, True, 0, 1]):
+        for g in ("distinct", "frequencies", "first", "last", "reverse", "length", "any?", "every?", "u/values"):
+            yield (g, [c])
+        for x in (None, False, 0):
+            yield ("index-of", [x, c])
+            yield ("has-value?", [c, x])
     # several columns: arities 2..5 (5 takes the generic path of map-template)
     m = 3
     cols = list(allseqs(m, "at")) + [b"\x00\x01", Buf(b"\x02"), None]
@@ -451,7 +457,7 @@ def p_seq_map(q):
 
 
 def p_seq_reduce(q):
-    n = 4 if q else 5
+    n = 4 if q else 6
     for c in allseqs(n, "atsb"):
         for f in ("sub", "lin", "tuple", "+"):
             for init in (0, 5, None) if f == "tuple" else (0, 5):
@@ -552,7 +558,7 @@ def p_seq_range_float(q):
         g2 = g[::3]
         yield from calls("range", g2, g2, steps)
     else:
-        yield from calls("range", g[::2], g, steps)
+        yield from calls("range", g[::3], g[::2], steps)
     yield from calls("range", g, g)
     yield from calls("range", g)
     nf = [float("nan"), float("inf"), float("-inf")]
@@ -853,10 +859,10 @@ PARTS = [
 def sort_items(q):
     """-> list of (label, item text, expected number of cases)"""
     out = []
-    nseq = 7 if q else 9
-    nperm = 7 if q else 9
-    nrank = 5 if q else 7
-    ntag = 6 if q else 8
+    nseq = 8 if q else 9
+    nperm = 8 if q else 9
+    nrank = 6 if q else 7
+    ntag = 7 if q else 8
 
     def fact(n):
         return math.factorial(n)
@@ -966,17 +972,23 @@ def sort_call(fnname, variant, cmp_):
 def run_all(chk, r):
     q = chk.quick
     for name, gen, variants in PARTS:
+        if name == "format":
+            # the sort families come before the long tail of parts so that a loaded machine still runs them
+            if not chk.out_of_time(0.9):
+                run_sort(chk, r)
+            else:
+                chk.cap("sort families not run: out of time")
         if not r.wanted(name):
             continue
         if chk.out_of_time(0.9):
             chk.cap("part %s not run: out of time" % name)
             continue
         r.run(name, gen(q), variants=variants)
-    if not chk.out_of_time(0.9):
-        run_sort(chk, r)
-    else:
-        chk.cap("sort families not run: out of time")
 
 
 def bound_text(chk):
-    return "quick bounds" if chk.quick else "thorough bounds"
+    if chk.quick:
+        return ("byte strings <=3 (kmp: patterns <=3, texts <=6), buffers/arrays 0..4-6 + growth grids to 18, sequences <=4 over {0,1,2}, "
+                "sort: all sequences <=8 over 4 letters, all permutations of 0..7, all 256 strict weak orders on 4 letters x sequences <=6")
+    return ("byte strings <=4 (kmp: patterns <=4, texts <=8), buffers/arrays 0..8-12 + growth grids to 40-66, sequences <=5-6 over {0,1,2}, "
+            "sort: all sequences <=9 over 4 letters, all permutations of 0..8, all 256 strict weak orders on 4 letters x sequences <=7")
